@@ -196,9 +196,9 @@ Theorem second_cycle ro o m text m' hs dl rts nt :
   opt_all (map (row_text fmtv fmt_pi o (Some nt) 0%nat) (las_rows (hs_las hs))) = Some rts ->
   file_hypsb fmtv fmt_pi fstr fhex ro o hs nt = true -> o_ignore_data ro = false ->
   cycle_hypsb ro o hs nt = true ->
-  exists l m2,
+  exists l,
     read ro text = ROk l /\
-    write o (mkmlas l (reread_index l)) = WOk text m2.
+    write o (mkmlas l (reread_index l)) = WOk text (mkmlas (norm_las fzero l) (reread_index l)).
 Proof.
   intros Hw Hs Hdl Hnt Hrts Hfile Hig Hcyc.
   destruct (read_written_file_checked fmtv fmt_diff fmt_pi fstr fzero numeq fhex ro o m text m' hs dl rts nt
@@ -276,10 +276,55 @@ Proof.
   { rewrite <- Hd. apply (write_data_same fmtv fmt_pi fstr o nt hs hs2 Hnt Hnt2 HT2 eq_refl).
     intros Hmh. rewrite Hmh in Hsess. cbn [negb orb] in Hsess. apply strs_eqb_eq in Hsess.
     change (l_curves (hs_las hs2)) with (l_curves l). rewrite HlC. cbn [s_items]. exact Hsess. }
-  rewrite Hd2. eexists. split; [exact Hread|]. f_equal. rewrite Ht. f_equal. f_equal.
+  rewrite Hd2. split; [exact Hread|]. cbn [m_index_initial]. f_equal. rewrite Ht. f_equal. f_equal.
   unfold header_lines.
   change (l_other (hs_las hs2)) with (l_other l). change (hs_lv hs2) with (hs_lv hs). change (hs_lw hs2) with (hs_lw hs).
   change (hs_lc hs2) with (hs_lc hs). change (hs_lp hs2) with (hs_lp hs). rewrite Hother, Hoth. reflexivity.
+Qed.
+
+(* ---- any number of cycles ---------------------------------------------------------------------------- *)
+(* one load/save cycle on a text: read it, write the object read back (index_initial = its index
+   column) with the same options *)
+Definition cycle (ro : ropts) (o : wopts) (text : list N) : option (list N) :=
+  match read ro text with
+  | ROk l => match write o (mkmlas l (reread_index l)) with WOk t _ => Some t | WErr _ => None end
+  | RErr _ => None
+  end.
+Definition cycle_opt (ro : ropts) (o : wopts) (x : option (list N)) : option (list N) :=
+  match x with Some t => cycle ro o t | None => None end.
+
+Theorem cycle_fixed ro o m text m' hs dl rts nt :
+  write o m = WOk text m' ->
+  write_sections fmtv fmt_diff fstr fzero numeq (wo_version o) (wo_wrap o) (col_fmt o 0%nat) m = Some hs ->
+  dsh_of fmtv fmt_pi fstr o hs = Some dl ->
+  las_null_text fstr (hs_las hs) = Some nt ->
+  opt_all (map (row_text fmtv fmt_pi o (Some nt) 0%nat) (las_rows (hs_las hs))) = Some rts ->
+  file_hypsb fmtv fmt_pi fstr fhex ro o hs nt = true -> o_ignore_data ro = false ->
+  cycle_hypsb ro o hs nt = true ->
+  cycle ro o text = Some text.
+Proof.
+  intros Hw Hs Hdl Hnt Hrts Hfile Hig Hcyc.
+  destruct (second_cycle ro o m text m' hs dl rts nt Hw Hs Hdl Hnt Hrts Hfile Hig Hcyc) as (l & Hr & Hw2).
+  unfold cycle. rewrite Hr, Hw2. reflexivity.
+Qed.
+
+(* k cycles: the text of every cycle is the text of the first write, and every read returns the
+   same object *)
+Theorem cycles_same_text ro o m text m' hs dl rts nt :
+  write o m = WOk text m' ->
+  write_sections fmtv fmt_diff fstr fzero numeq (wo_version o) (wo_wrap o) (col_fmt o 0%nat) m = Some hs ->
+  dsh_of fmtv fmt_pi fstr o hs = Some dl ->
+  las_null_text fstr (hs_las hs) = Some nt ->
+  opt_all (map (row_text fmtv fmt_pi o (Some nt) 0%nat) (las_rows (hs_las hs))) = Some rts ->
+  file_hypsb fmtv fmt_pi fstr fhex ro o hs nt = true -> o_ignore_data ro = false ->
+  cycle_hypsb ro o hs nt = true ->
+  forall k, Nat.iter k (cycle_opt ro o) (Some text) = Some text.
+Proof.
+  intros Hw Hs Hdl Hnt Hrts Hfile Hig Hcyc k.
+  pose proof (cycle_fixed ro o m text m' hs dl rts nt Hw Hs Hdl Hnt Hrts Hfile Hig Hcyc) as Hc.
+  induction k as [|k IH]; [reflexivity|].
+  change (Nat.iter (S k) (cycle_opt ro o) (Some text)) with (cycle_opt ro o (Nat.iter k (cycle_opt ro o) (Some text))).
+  rewrite IH. exact Hc.
 Qed.
 
 End WithOracles.
